@@ -8,10 +8,11 @@ void Set(void* new_value, std::uint64_t i);
 
 void SetDefault(void* new_value, std::uint64_t i);
 
+// One counter for all ThreadLocalPtrProxy<Type>, because tls of fiber is keyed only by index
+inline std::uint64_t sNextFreeIndex = 0;
+
 template <typename Type>
 class ThreadLocalPtrProxy final {
-  inline static std::uint64_t sNextFreeIndex = 0;
-
  public:
   ThreadLocalPtrProxy() noexcept : _i(sNextFreeIndex++) {
   }
